@@ -625,7 +625,7 @@ impl SynGen {
             (format!("{}[{}{}{}]", s0, s1, dt, s2), d)
         });
         let note = self.opt(has_note, |g| {
-            let note = g.rng.pick(&["lot 1", "bought at IPO", "x", "ロット"]).to_string();
+            let note = g.rng.pick(&["lot 1", "bought at IPO", "x", "ロット", "lot 7; tranche B", "50% = half, #2 | ok"]).to_string();
             let s0 = g.sp1();
             (format!("{}({})", s0, note), note)
         });
@@ -1233,7 +1233,8 @@ pub fn dump_entry(e: &LedgerEntry) -> String {
                 t.date,
                 t.effective_date.map(|d| d.to_string()).unwrap_or("-".into()),
                 state_char(t.clear_state),
-                t.code.as_ref().map(|c| format!("some:{}", c.trim())).unwrap_or("none".into()),
+                // the code is what stands between the parentheses, blanks at either end included
+                t.code.as_ref().map(|c| format!("some:{}", c)).unwrap_or("none".into()),
                 // ASCII blanks around a payee are not significant in the grammar (the header parser
                 // skips them); any other leading character, a wide space included, is payee text
                 t.payee.trim_end().trim_start_matches([' ', '\t'])
